@@ -249,6 +249,12 @@ func judgeC10(out *evid.Out, r *dRun) {
 	rep := r.describe()
 	rep["check"] = "c10"
 	viol := func(sig, desc string) { out.Violate(sig, desc+" "+r.cfg.String(), rep) }
+	r.mu.Lock()
+	spin := r.ProducerSpin
+	r.mu.Unlock()
+	if spin != "" {
+		viol("producer-spins", "Write does not return while the wrapped writer is blocked or slow: "+spin)
+	}
 	if r.ProducersHung == "parked" {
 		viol("producer-blocked", "a producer's Write cannot return while the wrapped writer is blocked (producer goroutine parked): "+firstLines(r.StallDump, 6))
 	} else if strings.HasPrefix(r.ProducersHung, "inconclusive") {
